@@ -514,7 +514,7 @@ fn main() {
         rec.notes.push(format!("exhaustive: {n} threads, all schedules to decision depth {depth}: {runs} runs"));
     }
     let mut rng = Rng::new(args.seed);
-    let cases = args.budget(500, 10000);
+    let cases = args.budget(500, 5000);
     for c in 0..cases {
         let n = rng.range(2, 3) as usize;
         let budget = rng.range(8, 60) as usize;
